@@ -52,7 +52,7 @@ ASSUME PrintT(ToJson([tables |-> [C |-> MCC, R |-> MCR, Owner |-> MCOwner, Comm 
 \* ---- behaviour generation -----------------------------------------------------------------------------
 Emit == (Hist /\ Terminal) => PrintT(ToJson([steps |-> hist]))
 \* one witness per distinct state in which the code departs from the property statement
-Bad == Mode = "recv" /\ ~(StoredAreValid /\ OrderIndependent /\ TransientNotDropped /\ NoPoison)
+Bad == Mode = "recv" /\ ~(IdUnique /\ StoredAreValid /\ OrderIndependent /\ TransientNotDropped /\ NoPoison)
 EmitBad == (Hist /\ Bad) => PrintT(ToJson([steps |-> hist]))
 HistBound == Len(hist) <= 40
 =============================================================================
